@@ -157,6 +157,13 @@ func c04GenFile(r *Rng, idx int, le string, nfiles int) c04File {
 		emit(nx(), fmt.Sprintf("function %sTab.%sadded(%sq2) return %sq2 end", o, pre, pre, pre))
 		emit(nx(), fmt.Sprintf("print(%sTab.%sadded(1))", o, pre))
 	}
+	// one file in three has a statement that ends in a character the lexer does not know (a stray @, $, ?, a full-width
+	// semicolon from an input method), directly in front of the line break: one syntax error, and every position below it
+	// must still be that of the client's text
+	if r.Fork(0x696c6c).Chance(1, 3) {
+		emit(nx(), fmt.Sprintf("local %sill = 10 %s", pre, r.Fork(0x696c6d).Pick([]string{"@", "$", "?", "；", "`", "!"})))
+		emit(nx(), fmt.Sprintf("print(%sill, %salpha)", pre, pre))
+	}
 	// annotation types: an alias and a class declared here, used here and in the next file (go-to-definition on a type
 	// name inside an annotation comment answers with a location like any other)
 	var anno []c04AnnoSite
